@@ -167,24 +167,34 @@ def addr(payload):
             o['rel'] = rel; o['abs'] = ab; o['allobj'] = allobj; o['all'] = [int(q.idx) for q in l.pulses]
             # the same addressing through the command line: several sources in mixed forms (a per-object one BEFORE an absolute
             # one), the first load attached to all pulses of two objects by two options, a second load pulse by pulse
-            blocks = {int(g.tag): [int(p.idx) for p in g.pulses] for g in m.geo}
-            full = [t for t in tags if blocks[t]]
-            if n >= 3 and len(full) >= 2 and all(w.get('tag') is not None or not w.get('taper') for w in spec['wires']):
-                import io
+            # (the command line reads arcs, then helices, then wires and numbers untagged objects in that order: the layout is
+            #  taken from the model the command line itself builds, without sources and loads)
+            import io
+            mc0 = None
+            if all(w.get('tag') is not None or not w.get('taper') for w in spec['wires']):
+                try:
+                    mc0 = M.main(gen.to_argv(dict(spec, sources=[], loads=[])), f_err=io.StringIO(), return_mininec=True)
+                except ValueError:
+                    mc0 = None
+                if isinstance(mc0, int): mc0 = None
+            blocks = {int(g.tag): [int(p.idx) for p in g.pulses] for g in (mc0.geo if mc0 is not None else [])}
+            full = [t for t in blocks if blocks[t]]
+            n_c = len(mc0.pulses) if mc0 is not None else 0
+            if mc0 is not None and n_c >= 3 and len(full) >= 2:
                 ta, tb = rng.sample(full, 2)
                 k1 = rng.randrange(len(blocks[ta]))
-                pabs = rng.choice([p for p in range(n) if p != blocks[ta][k1]])
+                pabs = rng.choice([p for p in range(n_c) if p != blocks[ta][k1]])
                 srcs = [dict(pulse=k1, tag=ta, v=[1.0, 0.0]), dict(pulse=pabs, tag=None, v=[0.5, 0.5])]
                 want_src = [blocks[ta][k1], pabs]
                 if rng.random() < 0.5:
                     k2 = rng.randrange(len(blocks[tb]))
                     if blocks[tb][k2] not in want_src:
                         srcs.append(dict(pulse=k2, tag=tb, v=[0.0, 1.0])); want_src.append(blocks[tb][k2])
-                    p3 = rng.randrange(n)
+                    p3 = rng.randrange(n_c)
                     if p3 not in want_src:
                         srcs.append(dict(pulse=p3, tag=None, v=[2.0, 0.0])); want_src.append(p3)
-                junc_ = [int(p.idx) for p in m.pulses if p.segs[0].geobj is not p.segs[1].geobj]
-                pl = rng.choice(junc_) if (junc_ and rng.random() < 0.7) else rng.randrange(n)
+                junc_ = [int(p.idx) for p in mc0.pulses if p.segs[0].geobj is not p.segs[1].geobj]
+                pl = rng.choice(junc_) if (junc_ and rng.random() < 0.7) else rng.randrange(n_c)
                 loads = [dict(kind='imp', z=[7.0, 3.0], attach=[[None, ta], [None, tb]]),
                          dict(kind='imp', z=[11.0, -5.0], attach=[[pl], [rng.randrange(len(blocks[tb])), tb]])]
                 want_l2 = sorted([pl, blocks[tb][loads[1]['attach'][1][0]]])
